@@ -1176,7 +1176,6 @@ func baseCfg(profile string) Cfg {
 	case "scope":
 		c.W[SDecl], c.W[SAssign], c.W[SFuncLit], c.W[SBlock], c.W[SExpr], c.W[SRange] = 12, 9, 8, 6, 5, 5
 		c.Closures, c.GenLits, c.Ranges = true, true, true
-		c.Quar["A6"] = true
 	case "delegation":
 		c.W[SYieldFrom], c.W[SFuncLit] = 10, 3
 		c.Deleg, c.GenLits = true, true
@@ -1184,7 +1183,6 @@ func baseCfg(profile string) Cfg {
 	case "range":
 		c.W[SRange], c.W[SFuncLit], c.W[SSwitch], c.W[STypeSwitch] = 16, 3, 3, 1
 		c.Ranges, c.Closures = true, true
-		c.Quar["A6"] = true
 	case "consumer":
 		c.W[SRange], c.W[SFuncLit] = 12, 3
 		c.Consume, c.GenLits, c.Deleg = true, true, true
@@ -1193,12 +1191,10 @@ func baseCfg(profile string) Cfg {
 	case "bystander":
 		c.W[SFuncLit], c.W[SExpr], c.W[SDecl], c.W[SAssign], c.W[SRange] = 9, 6, 9, 9, 5
 		c.Closures, c.GenLits, c.Ranges = true, true, true
-		c.Quar["A6"] = true
 		c.PlainPct = 60
 	case "all":
 		c.W[SFuncLit], c.W[SYieldFrom], c.W[SExpr], c.W[SRange] = 5, 5, 3, 5
 		c.Closures, c.GenLits, c.Deleg, c.Ranges, c.Consume = true, true, true, true, true
-		c.Quar["A6"] = true
 		c.ForForm = [5]int{5, 3, 3, 0, 3}
 	}
 	return c
